@@ -14,11 +14,18 @@
    - C05_pole_count : COUNTING (carrier without zero divisors, decidable equality): when A(z) has p m latent pairs with
      pairwise different non-zero roots forming an invertible modal matrix, the (p+1) m values any full eigen-decomposition
      of the bordered companion returns are a Permutation of those p m roots plus m zeros - one pole per root, nothing else.
+   - C05_modal_invertible, C05_pole_count_free (field with decidable equality; Base/Dim.v): the modal-matrix witness of
+     C05_pole_count is PROVED (eigenvectors of pairwise different eigenvalues are independent, N independent vectors of K^N
+     form a two-sided invertible matrix), and of the eigen-solver only eigen-columns with a LEFT inverse are required:
+     p m latent pairs with pairwise different non-zero roots and non-zero vectors -> the returned values are a Permutation
+     of those roots followed by m zeros;
+   - C05_pole_count_free_real : the same for what the code does - solves and companion matrix in REAL arithmetic (formally
+     real field), latent roots and eigen-decomposition over its complexification.
    What is NOT proved is collected in C05_full_statement (a Definition: it asserts nothing). *)
 From Coq Require Import List Arith Lia Ring ZArith QArith Qcanon Bool Permutation.
-From PyOMA.Base Require Import Carrier FMat Cplx EigCount.
+From PyOMA.Base Require Import Carrier FMat Cplx EigCount Dim.
 From PyOMA.Model Require Import M_plscf.
-From PyOMA.Proofs Require Import P_plscf P_eigcount_c05.
+From PyOMA.Proofs Require Import P_plscf P_eigcount_c05 P_plscf_dim.
 Import ListNotations.
 
 Section S.
@@ -186,15 +193,115 @@ Proof.
 Qed.
 End CP.
 
+(* --- counting the poles without the modal-matrix witness (Base/Dim.v) -------------------------------------------
+   Carrier: a field with decidable equality (Qc; classically the reals; the complexification of a formally real field by
+   Dim.cplx_field_theory + EigCount.cplx_dec).
+   C05_modal_invertible: the witness Phii of C05_pole_count exists whenever the latent vectors are non-zero.
+   C05_pole_count_free: hypotheses = A_p left-invertible; p m latent pairs (z_j, v_j) with z_j <> 0, v_j <> 0 on the window,
+   A(z_j) v_j = 0, pairwise different roots; the eigen-solver returned eigen-columns Ac V = V diag(d) and V has a LEFT
+   inverse W (independent columns; the right inverse follows from Dim.left_inv_is_right_inv).  Conclusion as C05_pole_count. *)
+Section CF.
+Variable R:Type. Variable K:Ops R.
+Hypothesis Fth : field_theory (o0 K) (o1 K) (oadd K) (omul K) (osub K) (oopp K) (odiv K) (oinv K) (@eq R).
+Hypothesis Rdec : forall x y:R, {x = y} + {x <> y}.
+
+Theorem C05_modal_invertible : forall (solve:solver R)
+  (Hsolve:forall d c A B X, solve d c A B = POk X -> feq d c (fmul K d A X) B)
+  (m p:nat) (Ad Bn:nat -> fmat R) (Ac Cc:fmat R),
+  (0 < m)%nat -> (1 <= p)%nat ->
+  rmfd2ac K solve m p Ad Bn = POk (Ac, Cc) ->
+  forall (z zi:nat -> R) (v:nat -> fmat R) (ApInv:fmat R),
+  feq m m (fmul K m ApInv (Ad p)) (fid K) ->
+  (forall j, (j < p*m)%nat -> omul K (z j) (zi j) = o1 K /\ feq m 1 (polymat_apply K m p Ad (z j) (v j)) (fzero K)) ->
+  (forall i j, (i < p*m)%nat -> (j < p*m)%nat -> i <> j -> z i <> z j) ->
+  (forall j, (j < p*m)%nat -> ~ feq m 1 (v j) (fzero K)) ->
+  exists Phii:fmat R,
+    feq (S p * m) (S p * m) (fmul K (S p * m) (comp_modal R K m p z zi v) Phii) (fid K) /\
+    feq (S p * m) (S p * m) (fmul K (S p * m) Phii (comp_modal R K m p z zi v)) (fid K).
+Proof. exact (comp_modal_invertible R K Fth Rdec). Qed.
+
+Theorem C05_pole_count_free : forall (solve:solver R)
+  (Hsolve:forall d c A B X, solve d c A B = POk X -> feq d c (fmul K d A X) B)
+  (m p:nat) (Ad Bn:nat -> fmat R) (Ac Cc:fmat R),
+  (0 < m)%nat -> (1 <= p)%nat ->
+  rmfd2ac K solve m p Ad Bn = POk (Ac, Cc) ->
+  let N := (S p * m)%nat in
+  forall (z:nat -> R) (v:nat -> fmat R) (ApInv:fmat R),
+  feq m m (fmul K m ApInv (Ad p)) (fid K) ->
+  (forall j, (j < p*m)%nat -> z j <> o0 K /\ ~ feq m 1 (v j) (fzero K) /\
+                              feq m 1 (polymat_apply K m p Ad (z j) (v j)) (fzero K)) ->
+  (forall i j, (i < p*m)%nat -> (j < p*m)%nat -> i <> j -> z i <> z j) ->
+  forall (V W:fmat R) (d:nat -> R),
+  feq N N (fmul K N Ac V) (fmul K N V (ediag K d)) ->
+  feq N N (fmul K N W V) (fid K) ->
+  Permutation (tab N d) (tab (p*m) z ++ repeat (o0 K) m) /\
+  (forall eqz:R -> bool, (forall x, eqz x = true <-> x = o0 K) ->
+     Permutation (filter (fun x => negb (eqz x)) (tab N d)) (tab (p*m) z) /\ length (filter eqz (tab N d)) = m) /\
+  exists (sg:nat -> nat) (c:nat -> R),
+    (forall k, (k < N)%nat -> (sg k < N)%nat) /\
+    (forall k k', (k < N)%nat -> (k' < N)%nat -> (sg k < p*m)%nat -> sg k = sg k' -> k = k') /\
+    (forall j, (j < p*m)%nat -> exists k, (k < N)%nat /\ sg k = j) /\
+    (forall k, (k < N)%nat -> (sg k < p*m)%nat ->
+       d k = z (sg k) /\ c k <> o0 K /\
+       (forall a, (a < N)%nat -> V a k = omul K (geo_vec K m p (z (sg k)) (oinv K (z (sg k))) (v (sg k)) a 0%nat) (c k)) /\
+       (forall l r, (r < l)%nat -> fmul K N Cc V r k = omul K (polymat_apply K m p Bn (z (sg k)) (v (sg k)) r 0%nat) (c k))) /\
+    (forall k, (k < N)%nat -> (p*m <= sg k)%nat -> d k = o0 K).
+Proof. exact (companion_pole_count_free_nz R K Fth Rdec). Qed.
+
+(* What the code does: np.linalg.solve and the companion matrix in REAL arithmetic, np.linalg.eig over the complex numbers.
+   K formally real (a^2 + b^2 = 0 -> a = 0: Qc, the reals), KC = COps K its complexification, cofm = entrywise embedding.
+   The latent pairs (z_j, v_j) are complex, the polynomial matrix has the real coefficients handed to rmfd2ac. *)
+Hypothesis Hreal : forall a b:R, oadd K (omul K a a) (omul K b b) = o0 K -> a = o0 K.
+
+Theorem C05_pole_count_free_real : forall (solve:solver R)
+  (Hsolve:forall d c A B X, solve d c A B = POk X -> feq d c (fmul K d A X) B)
+  (m p:nat) (Ad Bn:nat -> fmat R) (Ac Cc:fmat R),
+  (0 < m)%nat -> (1 <= p)%nat ->
+  rmfd2ac K solve m p Ad Bn = POk (Ac, Cc) ->
+  let N := (S p * m)%nat in
+  let KC := COps K in
+  let AdC := fun i => cofm K (Ad i) in
+  let BnC := fun i => cofm K (Bn i) in
+  forall (z:nat -> C R) (v:nat -> fmat (C R)) (ApInv:fmat R),
+  feq m m (fmul K m ApInv (Ad p)) (fid K) ->
+  (forall j, (j < p*m)%nat -> z j <> c0 K /\ ~ feq m 1 (v j) (fzero KC) /\
+                              feq m 1 (polymat_apply KC m p AdC (z j) (v j)) (fzero KC)) ->
+  (forall i j, (i < p*m)%nat -> (j < p*m)%nat -> i <> j -> z i <> z j) ->
+  forall (V W:fmat (C R)) (d:nat -> C R),
+  feq N N (fmul KC N (cofm K Ac) V) (fmul KC N V (ediag KC d)) ->
+  feq N N (fmul KC N W V) (fid KC) ->
+  Permutation (tab N d) (tab (p*m) z ++ repeat (c0 K) m) /\
+  (forall eqz:C R -> bool, (forall x, eqz x = true <-> x = c0 K) ->
+     Permutation (filter (fun x => negb (eqz x)) (tab N d)) (tab (p*m) z) /\ length (filter eqz (tab N d)) = m) /\
+  exists (sg:nat -> nat) (c:nat -> C R),
+    (forall k, (k < N)%nat -> (sg k < N)%nat) /\
+    (forall k k', (k < N)%nat -> (k' < N)%nat -> (sg k < p*m)%nat -> sg k = sg k' -> k = k') /\
+    (forall j, (j < p*m)%nat -> exists k, (k < N)%nat /\ sg k = j) /\
+    (forall k, (k < N)%nat -> (sg k < p*m)%nat ->
+       d k = z (sg k) /\ c k <> c0 K /\
+       (forall a, (a < N)%nat -> V a k = cmul K (geo_vec KC m p (z (sg k)) (cinv K (z (sg k))) (v (sg k)) a 0%nat) (c k)) /\
+       (forall l r, (r < l)%nat ->
+          fmul KC N (cofm K Cc) V r k = cmul K (polymat_apply KC m p BnC (z (sg k)) (v (sg k)) r 0%nat) (c k))) /\
+    (forall k, (k < N)%nat -> (p*m <= sg k)%nat -> d k = c0 K).
+Proof. exact (companion_pole_count_real R K Fth Rdec Hreal). Qed.
+End CF.
+
 (* The whole property, including what the theorems above take as hypotheses.  A Definition: asserts nothing.
-   Counting with multiplicity is now C05_pole_count, which takes as hypotheses what is still missing for a proof of the
-   statement below: (1) that p m latent pairs with pairwise different non-zero roots EXIST and that their block-geometric
-   vectors together with the border basis form an invertible matrix (for pairwise different roots this is independence of
-   eigenvectors + "N independent vectors of K^N are a two-sided invertible matrix", i.e. dimension / determinant theory;
-   repeated roots are not covered), and that np.linalg.eig returns a full (two-sided invertible) eigenvector matrix;
+   Counting with multiplicity is C05_pole_count_free / C05_pole_count_free_real.  PROVED there (no longer hypotheses): that
+   the block-geometric vectors of the latent pairs together with the border basis form a two-sided invertible matrix
+   (C05_modal_invertible: independence of eigenvectors for different eigenvalues + "N independent vectors of K^N are a
+   two-sided invertible matrix", Base/Dim.v), and the right inverse of the eigenvector matrix np.linalg.eig returns (only
+   a left inverse = independent columns is assumed; the bordered companion is then diagonalisable, so such a matrix exists).
+   What is still missing for a proof of the statement below, precisely:
+   (1) EXISTENCE of the latent pairs: that det A(z) = 0 has p m = n Nch roots over the complex numbers, each with a non-zero
+       latent vector - the fundamental theorem of algebra for the matrix polynomial A(z) (no carrier here is algebraically
+       closed) - and that they are pairwise different and non-zero (a genericity condition on A; repeated roots, i.e. Jordan
+       blocks / counting with multiplicity > 1, and a singular A_0 are not covered); A_p left-invertible is a hypothesis
+       (it holds for the "HI" constraint A_n = I and whenever np.linalg.solve succeeds exactly);
    (2) that Ro and the constrained block of M are invertible for >= 4(n+1) distinct lines on the unit circle and
-   "well-conditioned" A, B (taken as hypotheses Rinv, W); (3) the transcendental map z -> log z / dt, |.|, and IEEE
-   rounding of LAPACK. *)
+       "well-conditioned" A, B (taken as hypotheses Rinv, W in C05_plscf_unique / C05_resid_zero_exact);
+   (3) the transcendental map z -> log z / dt, |.|, the sign test Re(log z) <= 0, and IEEE rounding of LAPACK (the
+       eigen-solver contract Ac V = V diag(d) with independent columns is exact arithmetic). *)
 Definition C05_full_statement : Prop :=
   forall (R:Type) (K:Ops R) (solve:solver R) (eig:nat -> fmat R -> list (C R * list (C R))) (clogdt:C R -> option (C R))
          (gt0:R -> bool) (ltb:R -> R -> bool) (eqz:R -> bool) (Nf Nch Nref n:nat) (cs:constr) (X:cmat R)
@@ -235,6 +342,9 @@ Print Assumptions C05_border_cell_nan.
 Print Assumptions C05_gj_solver_contract.
 Print Assumptions C05_plscf_exact_partial.
 Print Assumptions C05_pole_count.
+Print Assumptions C05_modal_invertible.
+Print Assumptions C05_pole_count_free.
+Print Assumptions C05_pole_count_free_real.
 
 From Coq Require Import String.
 From PyOMA.Base Require Import Show.
@@ -294,3 +404,43 @@ Proof. exact ec5_hyps. Qed.
 Example C05_example_carrier :
   (forall a b:Qc, omul QcOps a b = o0 QcOps -> a = o0 QcOps \/ b = o0 QcOps) /\ o1 QcOps <> o0 QcOps.
 Proof. exact (conj qc_integral qc_one_neq_zero). Qed.
+
+(* C05_pole_count_free on the same data: the carrier is a field with decidable equality; the roots and the latent vectors are
+   non-zero; of the solver output only the eigen-columns and the LEFT inverse are used; the theorem then yields the pole list *)
+Example C05_example_field :
+  field_theory (o0 QcOps) (o1 QcOps) (oadd QcOps) (omul QcOps) (osub QcOps) (oopp QcOps) (odiv QcOps) (oinv QcOps) (@eq Qc) /\
+  (forall a b:Qc, oadd QcOps (omul QcOps a a) (omul QcOps b b) = o0 QcOps -> a = o0 QcOps).
+Proof. exact (conj QcFth qc_formally_real). Qed.
+Example C05_example_pole_count_free :
+  rmfd2ac QcOps qsolver 2 1 ec5_Ad ec5_Bn = POk (ec5_Ac, ec5_Cc) /\
+  feq 2 2 (fmul QcOps 2 ec5_ApInv (ec5_Ad 1%nat)) (fid QcOps) /\
+  (forall j, (j < 1 * 2)%nat -> ec5_z j <> o0 QcOps /\ ~ feq 2 1 (ec5_v j) (fzero QcOps) /\
+                                feq 2 1 (polymat_apply QcOps 2 1 ec5_Ad (ec5_z j) (ec5_v j)) (fzero QcOps)) /\
+  (forall i j, (i < 1 * 2)%nat -> (j < 1 * 2)%nat -> i <> j -> ec5_z i <> ec5_z j) /\
+  feq 4 4 (fmul QcOps 4 ec5_Ac ec5_V) (fmul QcOps 4 ec5_V (ediag QcOps ec5_d)) /\
+  feq 4 4 (fmul QcOps 4 ec5_W ec5_V) (fid QcOps).
+Proof. exact ec5_free_hyps. Qed.
+Example C05_example_pole_count_free_result :
+  Permutation (tab 4 ec5_d) (tab 2 ec5_z ++ repeat (o0 QcOps) 2) /\
+  tab 4 ec5_d = [o0 QcOps; ec5_z 1%nat; o0 QcOps; ec5_z 0%nat].
+Proof. exact ec5_free_conclusion. Qed.
+
+(* C05_pole_count_free_real at the Gaussian rationals: REAL coefficients A(z) = [[2z^2-2z+1, z],[0, 6z^2-5z+1]] (m = 2, p = 2,
+   N = 6), B_0 = [1,2], B_1 = [0,-1], B_2 = [1,0]; latent pairs ((1+i)/2, (1,0)), ((1-i)/2, (1,0)), (1/2, (1,-1)),
+   (1/3, (3,-5)); the companion matrix is built by the real Gauss-Jordan model; the solver output lists the values as
+   (0, (1-i)/2, 1/3, 0, (1+i)/2, 1/2) with eigenvectors rescaled by i, 2, 1+i, -1 and a mixed border block; its left inverse
+   is computed by Gauss-Jordan over the Gaussian rationals *)
+Example C05_example_pole_count_real :
+  rmfd2ac QcOps qsolver 2 2 eg_Ad eg_Bn = POk (eg_Ac, eg_Cc) /\
+  feq 2 2 (fmul QcOps 2 eg_ApInv (eg_Ad 2%nat)) (fid QcOps) /\
+  (forall j, (j < 2 * 2)%nat -> eg_z j <> c0 QcOps /\ ~ feq 2 1 (eg_v j) (fzero (COps QcOps)) /\
+     feq 2 1 (polymat_apply (COps QcOps) 2 2 (fun i => cofm QcOps (eg_Ad i)) (eg_z j) (eg_v j)) (fzero (COps QcOps))) /\
+  (forall i j, (i < 2 * 2)%nat -> (j < 2 * 2)%nat -> i <> j -> eg_z i <> eg_z j) /\
+  feq 6 6 (fmul (COps QcOps) 6 (cofm QcOps eg_Ac) eg_V) (fmul (COps QcOps) 6 eg_V (ediag (COps QcOps) eg_d)) /\
+  feq 6 6 (fmul (COps QcOps) 6 eg_W eg_V) (fid (COps QcOps)).
+Proof. exact eg_hyps. Qed.
+Example C05_example_pole_count_real_result :
+  Permutation (tab 6 eg_d) (tab 4 eg_z ++ repeat (c0 QcOps) 2) /\
+  tab 6 eg_d = [c0 QcOps; eg_z 1%nat; eg_z 3%nat; c0 QcOps; eg_z 0%nat; eg_z 2%nat] /\
+  tab 4 eg_z = [(q 1 2, q 1 2); (q 1 2, q (-1) 2); (q 1 2, q 0 1); (q 1 3, q 0 1)].
+Proof. split; [exact (proj1 eg_conclusion)|split; [exact (proj2 eg_conclusion)|reflexivity]]. Qed.
